@@ -11,6 +11,8 @@
 
 #include <xercesc/dom/DOMDocument.hpp>
 #include <xercesc/dom/DOMImplementation.hpp>
+#include <xercesc/dom/DOMElement.hpp>
+#include <xercesc/dom/DOMNamedNodeMap.hpp>
 #include <xercesc/parsers/XercesDOMParser.hpp>
 #include <xercesc/sax2/SAX2XMLReader.hpp>
 #include <xercesc/sax2/XMLReaderFactory.hpp>
@@ -128,6 +130,31 @@ void dumpTreeEvents(const XalanNode* doc, Msg& resp)
     rec.endDocument();
 }
 }  // namespace
+
+static std::string xs(const XMLCh* p)
+{
+    if (!p) return std::string();
+    const XalanDOMString t(p);
+    return u8(t);
+}
+
+static void dumpDomNames(const xercesc::DOMNode* n, std::string& out)
+{
+    if (!n) return;
+    if (n->getNodeType() == xercesc::DOMNode::ELEMENT_NODE)
+    {
+        out += "E\t" + xs(n->getNodeName()) + "\t" + xs(n->getNamespaceURI()) + "\t" + xs(n->getLocalName()) + "\n";
+        const xercesc::DOMNamedNodeMap* as = n->getAttributes();
+        for (XMLSize_t i = 0; as && i < as->getLength(); ++i)
+        {
+            const xercesc::DOMNode* a = as->item(i);
+            const std::string nm = xs(a->getNodeName());
+            if (nm == "xmlns" || nm.compare(0, 6, "xmlns:") == 0) continue;
+            out += "A\t" + nm + "\t" + xs(a->getNamespaceURI()) + "\t" + xs(a->getLocalName()) + "\n";
+        }
+    }
+    for (const xercesc::DOMNode* c = n->getFirstChild(); c; c = c->getNextSibling()) dumpDomNames(c, out);
+}
 
 void runTransform(XalanTransformer& t, const Msg& spec, Msg& resp, const std::string& pfx)
 {
@@ -420,6 +447,11 @@ void runTransform(XalanTransformer& t, const Msg& spec, Msg& resp, const std::st
         rec.startDocument();
         w.traverse(xdoc.get());
         rec.endDocument();
+        // what the DOM itself says about names (the events above carry qualified names only): one line per element (E) and per
+        // attribute other than a namespace declaration (A), document order: kind TAB nodeName TAB namespaceURI TAB localName
+        std::string ns;
+        dumpDomNames(xdoc->getDocumentElement(), ns);
+        resp.add(pfx + "domns", ns);
     }
     else if (outform == "sourcetree" && rc == 0)
     {
